@@ -293,6 +293,10 @@ func c11FlushStep(np int) {
 		vAssert(!w.failed, "nil only when no Write failed")
 		vAssert(s1 == total, "nil only when the whole wire image has been written")
 		vAssert(released, "buffers released once everything is written")
+		// nothing pending: Flush is a no-op
+		w2 := &c11Writer{}
+		nn2, ferr2 := m.Flush(w2)
+		vAssert(nn2 == 0 && ferr2 == nil && len(w2.handed) == 0, "Flush with nothing pending writes nothing and returns (0, nil)")
 	} else {
 		vReach("flush-interrupted")
 		vAssert(w.failed && ferr == error(c11Err{}), "the writer's error is returned")
@@ -466,6 +470,7 @@ const (
 	c11Truncate
 	c11Replay
 	c11Reorder
+	c11Splice
 	c11Reflect
 	c11Desync
 	c11Kinds
@@ -529,6 +534,10 @@ func c11ReadTamper(np int) {
 		msgB := vBytes("msgB", vChoice("pB", 3))
 		wireB := c11Send(s, msgB)
 		in = append(append([]byte{}, wireB...), wire...)
+	case c11Splice:
+		// header of this message followed by the body of the next one (same length)
+		wireB := c11Send(s, vBytes("msgB", p))
+		in = append(append([]byte{}, wire[:bodyAt]...), wireB[bodyAt:]...)
 	case c11Reflect:
 		// the sender's own ciphertext comes back on its receive side, which
 		// uses the other direction's key
@@ -568,6 +577,8 @@ func c11ReadTamper(np int) {
 			vReach("reject-truncated")
 		case c11Reorder:
 			vReach("reject-reorder")
+		case c11Splice:
+			vReach("reject-splice")
 		case c11Reflect:
 			vReach("reject-reflect")
 		case c11Desync:
